@@ -5,7 +5,6 @@ import (
 	"encoding/json"
 	"errors"
 	"fmt"
-	"os"
 	"runtime/metrics"
 	"strconv"
 	"strings"
@@ -544,12 +543,4 @@ func TestCheck(t *testing.T) {
 		})
 	})
 
-	if p := os.Getenv("VERIF_FUZZ_STATS"); p != "" {
-		if b, err := os.ReadFile(p); err == nil {
-			var st any
-			if json.Unmarshal(b, &st) == nil {
-				r.Extra("native_fuzz_campaigns", st)
-			}
-		}
-	}
 }
